@@ -1,6 +1,6 @@
 CONSTANTS
   Sizes = {1, 4096, 70000}
-  MaxOps = 3
+  MaxOps = 4
   Defects = {}
 SPECIFICATION Spec
 INVARIANTS InOrderPrefix NothingLostBeforeEof EmitCase
